@@ -15,7 +15,8 @@ import time
 
 ROOT = os.path.dirname(os.path.dirname(os.path.abspath(__file__)))
 REPO = os.environ.get("TBOX_SRC", "/repo")
-BUILD = os.path.join(ROOT, "build")
+BUILD = os.environ.get("VERIF_BUILD", os.path.join(ROOT, "build"))      # override: isolated runs against scratch copies
+EVIDENCE = os.environ.get("VERIF_EVIDENCE", os.path.join(ROOT, "evidence"))
 SPEC = os.path.join(ROOT, "spec")
 HARNESS = os.path.join(ROOT, "harness")
 GUARD = "CPP_TBOX_VERIF"
@@ -136,6 +137,10 @@ def _parse_tlc(out):
     return r
 
 
+import threading
+_META_LOCK = threading.Lock()
+
+
 class Ctx:
     def __init__(self, pid, tier, seed):
         self.pid, self.tier, self.seed = pid, tier, seed
@@ -157,7 +162,7 @@ class Ctx:
         self.work = os.path.join(BUILD, "work", pid)
         shutil.rmtree(self.work, ignore_errors=True)
         os.makedirs(self.work, exist_ok=True)
-        self.replay_dir = os.path.join(ROOT, "evidence", "replay")
+        self.replay_dir = os.path.join(EVIDENCE, "replay")
         os.makedirs(self.replay_dir, exist_ok=True)
         self.known = load_known(pid)
         self._n = 0
@@ -172,6 +177,14 @@ class Ctx:
         return os.path.join(self.work, name)
 
     def metadir(self):
+        with _META_LOCK:
+            self._n += 1
+            n = self._n
+        d = os.path.join(self.work, "meta%d" % n)
+        shutil.rmtree(d, ignore_errors=True)
+        return d
+
+    def _metadir_unused(self):
         self._n += 1
         d = os.path.join(self.work, "meta%d" % self._n)
         shutil.rmtree(d, ignore_errors=True)
@@ -187,7 +200,7 @@ class Ctx:
         if coverage:
             extra += ["-coverage", "1"]
         if simulate:
-            extra += ["-simulate", "num=%d" % simulate[0], "-depth", str(simulate[1])]
+            extra += ["-simulate", "num=%d" % simulate[0], "-depth", str(simulate[1]), "-seed", str(self.seed)]
         if deadlock is False:
             extra += ["-deadlock"]
         cmd = _tlc_cmd(tla, cfg, self.metadir(), workers or NCPU, extra, jvm)
@@ -233,7 +246,7 @@ class Ctx:
         d = os.path.join(SPEC, spec_dir)
         extra = []
         if simulate:
-            extra += ["-simulate", "num=%d" % simulate[0], "-depth", str(simulate[1])]
+            extra += ["-simulate", "num=%d" % simulate[0], "-depth", str(simulate[1]), "-seed", str(self.seed)]
         cmd = _tlc_cmd(tla, cfg, self.metadir(), workers or NCPU, extra, jvm)
         t = time.time()
         rc, out = sh(cmd, timeout=timeout, env=env, cwd=d)
@@ -355,10 +368,10 @@ class Ctx:
             ev["coverage"]["rule"] = rule
         if extra_cov:
             ev["coverage"].update(extra_cov)
-        os.makedirs(os.path.join(ROOT, "evidence"), exist_ok=True)
+        os.makedirs(EVIDENCE, exist_ok=True)
         if getattr(self, "replay_path", None):
             return 1 if self.violations else 0          # a replay run does not rewrite the evidence
-        with open(os.path.join(ROOT, "evidence", self.pid + ".json"), "w") as f:
+        with open(os.path.join(EVIDENCE, self.pid + ".json"), "w") as f:
             json.dump(ev, f, indent=1, sort_keys=True)
             f.write("\n")
         self.log("done: states=%d traces_ok=%d replays_ok=%d violations=%d known=%d" %
